@@ -20,10 +20,12 @@ class EnvState(opsmod.Env):
         e.m_of_real_s = dict(self.m_of_real_s)
         e.m_of_real_t = dict(self.m_of_real_t)
         e.violations = []
+        e.pending_t = self.pending_t
+        e.pending_s = self.pending_s
         return e
 
     def key(self) -> Any:
-        return (tuple(sorted(self.m_of_real_s.items())), tuple(sorted(self.m_of_real_t.items())))
+        return (tuple(sorted(self.m_of_real_s.items())), tuple(sorted(self.m_of_real_t.items())), self.pending_t, self.pending_s)
 
 
 def check(history: list[dict], model: ModelStorage, env: EnvState, max_nodes: int = 200000) -> dict:
@@ -51,8 +53,8 @@ def check(history: list[dict], model: ModelStorage, env: EnvState, max_nodes: in
             if i in done or inv[i] > min_ret:
                 continue
             h = history[i]
-            if h["op"]["op"].startswith("get_"):
-                m2, e2 = m, e  # getters never change the model
+            if h["op"]["op"].startswith("get_") and not e.pending_t and not e.pending_s:
+                m2, e2 = m, e  # getters never change the model (nor the bindings)
             else:
                 m2 = m.clone()
                 e2 = e.clone()
@@ -81,11 +83,25 @@ def _apply_blind(m: ModelStorage, op: dict, e: EnvState) -> bool:
     """Effect of an op whose result nobody saw.  Creation ops cannot be bound to a
     backend id here; they are handled by the callers that generate ambiguous ops."""
     k = op["op"]
-    fake_ok = ("ok", None)
     try:
-        if k in ("create_new_study", "create_new_trial"):
-            return False
-        c = opsmod.apply_model(m, op, e, ("ok", _expected_ok(k)))
+        if k == "create_new_trial":
+            sid = opsmod._rid(e, op["study"])
+            if sid is None:
+                return True
+            msid = e.msid(sid)
+            if msid not in m.studies:
+                return True  # would have failed: no effect
+            mt = m.create_new_trial(msid, op.get("template"))
+            e.pending_t = e.pending_t + (mt,)
+            return True
+        if k == "create_new_study":
+            try:
+                ms = m.create_new_study(op["directions"], op.get("name"))
+            except opsmod.ModelError:
+                return True
+            e.pending_s = e.pending_s + (ms,)
+            return True
+        opsmod.apply_model(m, op, e, ("ok", _expected_ok(k)))
         return True
     except Exception:
         return False
